@@ -915,10 +915,10 @@ fn scripted(k: usize) -> Option<(Vec<Decl>, Vec<Stmt>)> {
             vec![pk0(), plain()],
             vec![Stmt::CreateIndex { name: 1, t: 0, uniq: true, cols: vec![1] }, ins(0, &[&[1, 10, 0]]), ins(0, &[&[2, 10, 0]]), ins(0, &[&[3, 40, 0], &[4, 40, 0]])],
         ),
-        // UPDATE ignores UNIQUE indexes
+        // UPDATE against a UNIQUE index: a single-row collision is rejected (repaired), two rows given the same new key are not
         3 => (
             vec![pk0(), plain()],
-            vec![Stmt::CreateIndex { name: 1, t: 0, uniq: true, cols: vec![1] }, ins(0, &[&[1, 10, 0], &[2, 20, 0]]), Stmt::Update { t: 0, asg: vec![(1, SExpr::Const(Some(10)))], w: Some(Pred::CmpC(0, Op::Eq, 2)) }],
+            vec![Stmt::CreateIndex { name: 1, t: 0, uniq: true, cols: vec![1] }, ins(0, &[&[1, 10, 0], &[2, 20, 0]]), Stmt::Update { t: 0, asg: vec![(1, SExpr::Const(Some(10)))], w: Some(Pred::CmpC(0, Op::Eq, 2)) }, Stmt::Update { t: 0, asg: vec![(1, SExpr::Const(Some(30)))], w: None }],
         ),
         // DELETE ... WHERE leaves user indexes stale
         4 => (
@@ -929,12 +929,12 @@ fn scripted(k: usize) -> Option<(Vec<Decl>, Vec<Stmt>)> {
         5 => (vec![pk0(), plain()], vec![Stmt::CreateIndex { name: 1, t: 0, uniq: false, cols: vec![1] }, ins(0, &[&[1, 10, 0], &[2, 20, 0]]), Stmt::Delete { t: 0, w: None }, ins(0, &[&[4, 40, 0]])]),
         // TRUNCATE
         6 => (vec![pk0(), plain()], vec![Stmt::CreateIndex { name: 1, t: 0, uniq: true, cols: vec![1] }, ins(0, &[&[1, 10, 0], &[2, 20, 0]]), Stmt::Truncate { t: 0 }, ins(0, &[&[4, 10, 0]])]),
-        // append-mode shortcut through the bulk-transfer path
+        // the former append-mode shortcut of the bulk-transfer path (repaired: the statement is rejected)
         7 => (
             vec![pk0(), base_decl(3, None, vec![], &[0])],
             vec![ins(0, &[&[1, 0, 0]]), ins(0, &[&[2, 0, 0]]), ins(0, &[&[3, 0, 0]]), ins(0, &[&[4, 0, 0]]), ins(1, &[&[2, 9, 9]]), Stmt::InsertSelect { dst: 0, src: 1, sel: vec![] }],
         ),
-        // composite key declared out of column order: validated with the columns permuted
+        // composite key declared out of column order (repaired: probe keys are built in declaration order)
         8 => (vec![base_decl(3, Some(vec![1, 0]), vec![], &[]), plain()], vec![ins(0, &[&[1, 2, 0]]), ins(0, &[&[2, 1, 0]]), ins(0, &[&[1, 2, 1]])]),
         9 => (vec![base_decl(3, Some(vec![0]), vec![vec![2, 1]], &[]), plain()], vec![ins(0, &[&[1, 1, 2]]), ins(0, &[&[2, 2, 1]]), ins(0, &[&[3, 1, 2]])]),
         // CREATE UNIQUE INDEX / ALTER TABLE ADD UNIQUE / PRIMARY KEY / CHECK over rows that violate it
@@ -957,7 +957,7 @@ fn scripted(k: usize) -> Option<(Vec<Decl>, Vec<Stmt>)> {
             vec![pk0(), plain()],
             vec![Stmt::CreateIndex { name: 1, t: 0, uniq: false, cols: vec![1] }, Stmt::Begin, ins(0, &[&[1, 10, 0]]), Stmt::Savepoint(1), ins(0, &[&[2, 20, 0]]), Stmt::RollbackTo(1), Stmt::Commit],
         ),
-        // i64 overflow in SET c = c + k (debug build: panic)
+        // i64 overflow in SET c = c + k (now an evaluation error, formerly a panic)
         18 => (vec![pk0(), plain()], vec![ins(0, &[&[1, 9223372036854775807, 0]]), Stmt::Update { t: 0, asg: vec![(1, SExpr::AddC(1, 1))], w: None }]),
         // a clean, long-ish history exercising the accepted paths
         19 => (
@@ -1124,15 +1124,7 @@ fn classify(prop: Prop, stmt: &Stmt, v: &Viol, pre: &Pre, bulk: bool) -> &'stati
             }
             (Stmt::InsertSelect { .. }, Viol::UniqIndex(_)) if !bulk => "unique-index-batch-insert-duplicates",
             (Stmt::InsertSelect { .. }, Viol::Pk) if bulk && append_mode_let_a_duplicate_in(pre) => "append-mode-bulk-transfer-duplicate-pk",
-            (Stmt::Update { asg, .. }, Viol::UniqIndex(_)) => {
-                let cols = key_cols(v).unwrap();
-                if asg.iter().any(|(c, _)| cols.contains(c)) {
-                    "update-ignores-unique-index"
-                } else {
-                    "constraint-violated"
-                }
-            }
-            (Stmt::Update { asg, w, .. }, Viol::Pk | Viol::Uniq(_)) => {
+            (Stmt::Update { asg, w, .. }, Viol::Pk | Viol::Uniq(_) | Viol::UniqIndex(_)) => {
                 let cols = key_cols(v).unwrap();
                 let imgs = update_images(pre, asg, w);
                 let ks: Vec<Row> = imgs.iter().filter(|(o, n)| proj(&cols, o) != proj(&cols, n)).map(|(_, n)| proj(&cols, n)).filter(|k| matches!(v, Viol::Pk) || nonnull(k)).collect();
